@@ -396,7 +396,9 @@ pub fn weakly_separable(x: &[Vec<f64>], y: &[f64], intercept: bool) -> Option<bo
         if intercept {
             r.push(yi as i64);
         }
-        rows.push(r);
+        if !rows.contains(&r) {
+            rows.push(r);
+        }
     }
     let dot = |a: &[i64], b: &[i64]| -> i64 { a.iter().zip(b).map(|(u, v)| u * v).sum() };
     let feasible = |t: &[i64]| -> bool { t.iter().any(|&v| v != 0) && rows.iter().all(|r| dot(r, t) >= 0) };
